@@ -35,6 +35,16 @@ class Lift(ast.NodeTransformer):
         if (
             len(node.ops) == 1
             and _isinstance(node.ops[0], (ast.In, ast.NotIn))
+            and _isinstance(node.comparators[0], ast.Constant)
+            and _isinstance(node.comparators[0].value, (str, bytes))
+        ):
+            call = ast.Call(ast.Name("__sym_contains__", ast.Load()), [node.comparators[0], node.left], [])
+            if _isinstance(node.ops[0], ast.NotIn):
+                call = ast.Call(ast.Name("__sym_not__", ast.Load()), [call], [])
+            return ast.copy_location(call, node)
+        if (
+            len(node.ops) == 1
+            and _isinstance(node.ops[0], (ast.In, ast.NotIn))
             and _isinstance(node.comparators[0], (ast.Set, ast.Tuple, ast.List))
             and not any(_isinstance(e, ast.Starred) for e in node.comparators[0].elts)
         ):
@@ -381,7 +391,24 @@ def sym_format(v, spec=""):
     return format(v, spec)
 
 
+def sym_contains(const, x):
+    """x in <str/bytes literal>"""
+    if _isinstance(x, SymText):
+        if len(x) == 0:
+            return True
+        if len(x) == 1:
+            items = list(const) if _isinstance(const, bytes) else [ord(c) for c in const]
+            return core.Or(*[x.cps[0] == c for c in items])
+        items = list(const) if _isinstance(const, bytes) else [ord(c) for c in const]
+        n = len(x)
+        return core.Or(*[core.And(*[x.cps[k] == items[i + k] for k in range(n)]) for i in range(len(items) - n + 1)])
+    if _isinstance(x, SymInt):
+        return core.Or(*[x == c for c in const]) if _isinstance(const, bytes) else False
+    return x in const
+
+
 HELPERS = {
+    "__sym_contains__": sym_contains,
     "__sym_format__": sym_format,
     "__sym_join__": text.sym_join,
     "__sym_in__": sym_in,
